@@ -161,6 +161,9 @@ def run(tier, seed, open_findings):
         docs.append(d)
     # sources that are not XML text at all (a str that does not start with '<' is taken as a location)
     docs += ['', ' ', '\x00<t:r xmlns:t="urn:t"/>', 'a\x00b.xml', '<', '<t:r', '</t:r>', 'plain text', '\ufeff<t:r xmlns:t="urn:t"/>', 'file:///nonexistent/\x00', 'http://[bad', '\\\\unc\\x', 'C:\\x.xml', '%zz', '<?xml version="9"?><r/>', '<!DOCTYPE']
+    # an xsi:nil that is not a boolean on a nillable element, an xsi:type that is not a QName: errors found before the content is looked at
+    docs += [f'<t:r xmlns:t="urn:t" xmlns:xsi="http://www.w3.org/2001/XMLSchema-instance"><t:item id="i0" code="0"><t:name>n</t:name><t:qty>1</t:qty><t:val {a_}/></t:item></t:r>'
+             for a_ in ('xsi:nil="yes"', 'xsi:nil="TRUE"', 'xsi:nil=""', 'xsi:nil="true" xsi:type="::"', 'xsi:type="a:b:c"', 'xsi:nil="1" x="y"')]
     jobs = [(ver, d) for d in docs for ver in ('1.0', '1.1')]
     res = pmap(eval_doc, jobs)
     fails = []; mknown = {}
